@@ -25,6 +25,9 @@ def variants(full=True):
         for d in DEPS[1:]:
             out.append((m, "pos", d))
             out.append((m, "kw", d))
+        # two register-dependent arguments in the same group (every one of them contributes wires)
+        out.append((m, "pos2", (0, 1)))
+        out.append((m, "kw2", (1, 2)))
     return out
 
 
@@ -45,8 +48,7 @@ def mk(seq):
     for i, (m, kind, d) in enumerate(seq):
         op = {"op": "G%d" % (i % 2), "modes": list(m)}
         if kind != "noargs":
-            op["args"] = [0.5, rr(d)] if kind == "pos" else []
-            op["kwargs"] = {"k": rr(d), "j": 1} if kind == "kw" else {}
+            op["args"], op["kwargs"] = op_args(kind, d)
         p.operations.append(op)
     return p
 
@@ -60,6 +62,18 @@ def alphabet(full, reg):
     if reg == "bare":
         V = [v for v in V if v[1] == "noargs"]
     return V
+
+
+def op_args(kind, d):
+    if kind == "pos":
+        return [0.5, rr(d)], {}
+    if kind == "kw":
+        return [], {"k": rr(d), "j": 1}
+    if kind == "pos2":
+        return [rr(d[:1]), 2, rr(d[1:])], {}
+    if kind == "kw2":
+        return [], {"a": rr(d[:1]), "b": rr(d[1:])}
+    return [], {}
 
 
 def wires(v):
@@ -94,8 +108,7 @@ def check_graph(seq, g, topo=True):
         if nd.get("name") != "G%d" % (i % 2) or tuple(nd.get("modes", ())) != tuple(seq[i][0]):
             return ("node-attributes", "node %d: %r" % (i, dict(nd)))
         kind, d = seq[i][1], seq[i][2]
-        want_args = [0.5, rr(d)] if kind == "pos" else []
-        want_kw = {"k": rr(d), "j": 1} if kind == "kw" else {}
+        want_args, want_kw = op_args(kind, d)
         if list(nd.get("args", [])) != want_args or dict(nd.get("kwargs", {})) != want_kw:
             return ("node-arguments", "node %d args %r kwargs %r" % (i, nd.get("args"), nd.get("kwargs")))
     R = reference(seq)
